@@ -2,6 +2,23 @@
 //!   fvharness corr   <Cxx> <seed> <n>   transcript of inputs and implementation outputs for the Lean driver
 //!   fvharness search <Cxx> <seed> <n>   evaluates the property itself on the real code with an independent oracle
 mod util;
+mod shapes;
+mod c01;
+mod c02;
+mod c03;
+mod c07;
+mod c11;
+mod c12;
+mod c14;
+mod c16;
+mod guard;
+mod cshapes;
+mod c08;
+mod c09;
+mod c10;
+mod c15;
+mod c19;
+mod c20;
 mod corr_misc;
 mod trace;
 mod c04;
@@ -24,6 +41,20 @@ fn main() {
     let extra: Vec<String> = args[5..].to_vec();
     let _ = &extra;
     match (mode, prop) {
+        ("search", "C01") => c01::search(seed, n),
+        ("search", "C02") => c02::search(seed, n),
+        ("search", "C03") => c03::search(seed, n),
+        ("search", "C07") => c07::search(seed, n),
+        ("search", "C11") => c11::search(seed, n),
+        ("search", "C12") => c12::search(seed, n),
+        ("search", "C14") => c14::search(seed, n),
+        ("search", "C16") => c16::search(seed, n),
+        ("search", "C08") => c08::search(seed, n),
+        ("search", "C09") => c09::search(seed, n),
+        ("search", "C10") => c10::search(seed, n),
+        ("search", "C15") => c15::search(seed, n),
+        ("search", "C19") => c19::search(seed, n),
+        ("search", "C20") => c20::search(seed, n),
         ("corr", "C01") => trace::corr("C01", seed, n),
         ("corr", "C11") => trace::corr("C11", seed, n),
         ("corr", "C12") => trace::corr("C12", seed, n),
